@@ -114,6 +114,24 @@ KF_C07(step) ==
            /\ AltIdOnly(step.src.bundles[i].recs, step.back.bundles[j].recs)
   THEN "KF-C07-alternate-id" ELSE ""
 
+(* KF-C11-multimember: one membership record holding several prov:entity values (the   *)
+(* PROV-XML / PROV-JSON compatibility form) is written to PROV-JSON with its first       *)
+(* member only.                                                                          *)
+MultiMember(r) == r.k = "membership" /\ Cardinality({x \in r.attrs : x.a = ProvU("entity")}) > 1
+MultiMemberOnly(d, d3) ==
+  LET A == SeqToSet(ContentSeq(d)) 
+      B == SeqToSet(ContentSeq(d3))
+  IN /\ \A r \in A \ B : MultiMember(r)
+     /\ \A r \in B \ A : r.k = "membership" /\ \E q \in A \ B : r.attrs \subseteq q.attrs
+KF_C11_cross(step) ==
+  IF /\ step.op.fmt = "xml" /\ step.res.cross = "done"
+     /\ MultiMemberOnly(step.res.d.recs, step.res.d3.recs)
+     /\ Len(step.res.d.bundles) = Len(step.res.d3.bundles)
+     /\ \A i \in 1..Len(step.res.d.bundles) : \E j \in 1..Len(step.res.d3.bundles) :
+           step.res.d.bundles[i].id = step.res.d3.bundles[j].id
+           /\ MultiMemberOnly(step.res.d.bundles[i].recs, step.res.d3.bundles[j].recs)
+  THEN "KF-C11-multimember" ELSE ""
+
 KnownFinding(step, c) ==
   CASE c = "C03c" -> KF_C03c(step)
     [] c = "C05_refuse" -> KF_C05_refuse(step)
@@ -127,6 +145,7 @@ KnownFinding(step, c) ==
          IF changed # {} /\ \A h \in changed : InheritedNsOnly(step, h) /\ UnifiesDup(step, h)
          THEN "KF-unified-registers" ELSE ""
     [] c = "C07_rt" -> KF_C07(step)
+    [] c = "C11_cross" -> KF_C11_cross(step)
     [] c = "C06_grammar" -> KF_C06_grammar(step)
     [] c = "C06_denotes" -> IF ShadowExplains(step.src, SpecReadProvN(step.ast)) THEN "KF-C03-shadow" ELSE ""
     [] c = "C10_read_json" -> IF ShadowExplains(step.src, SpecReadJSON(step.ast)) THEN "KF-C03-shadow" ELSE ""
